@@ -73,15 +73,19 @@ def quantisation(rep, res, entry):
 def check(rep, an, tier):
     # the estimator's wrappers of the geometry layer (anchored file estimator.py): targets reach it as given, unrounded
     from ..spec import estimator_fields, flag
-    for meth, kw in (("range_of_solutions", dict(B=arr("B", S("N", "F"), U_CAPTURE, "LIGHT", sign="NONNEG"), relative=flag("relative", False),
-                                                 error=strv("error", "ignore"), n=intv("n", "NS"), eps=num("eps", ONE, sign="POS"))),
-                     ("in_hull", dict(B=arr("B", S("N", "F"), U_CAPTURE, "LIGHT", sign="NONNEG"), relative=flag("relative", False)))):
-        res = an.run(f"{CC.EST}.{meth}", kws=kw, self_fields=estimator_fields(K="vec", baseline="vec"), spec=CC.hooks(), config="relative=False")
+    est_runs = []
+    for rel in (False, True):
+        Bv = (lambda: arr("B", S("N", "F"), U_REL, "TOTAL", sign="NONNEG")) if rel else (lambda: arr("B", S("N", "F"), U_CAPTURE, "LIGHT", sign="NONNEG"))
+        est_runs.append(("range_of_solutions", dict(B=Bv(), relative=flag("relative", rel), error=strv("error", "ignore"), n=intv("n", "NS"),
+                                                    eps=num("eps", ONE, sign="POS")), rel))
+        est_runs.append(("in_hull", dict(B=Bv(), relative=flag("relative", rel)), rel))
+    for meth, kw, rel in est_runs:
+        res = an.run(f"{CC.EST}.{meth}", kws=kw, self_fields=estimator_fields(K="vec", baseline="vec"), spec=CC.hooks(), config=f"relative={rel}")
         entry = f"ReceptorEstimator.{meth}"
         quantisation(rep, res, entry)
         tolerances(rep, res, entry)
         # a twin problem is set up by re-registering K / baseline / bounds on the same object: queries must not keep derived state
-        R.rule_effect_free(rep, res, entry)
+        R.rule_effect_free(rep, res, entry, reg=_reg(an))
         for ev in res.events("call"):
             fn = ev.d["callee"]
             if fn.module.name == CC.CONVEX and ev.fn.cls and fn.name in ("range_of_solutions", "in_hull_from_A"):
@@ -91,7 +95,7 @@ def check(rep, an, tier):
                         bound.setdefault(fn.params[i], a_)
                 vb = bound.get("B")
                 if vb is not None:
-                    rep.check("R-QTY", "targets reach the geometry layer in capture units", None if vb.flat().unit is None else vb.flat().unit == U_CAPTURE,
+                    rep.check("R-QTY", "targets reach the geometry layer in capture units", None if vb.flat().unit is None else vb.flat().unit == (U_REL if rel else U_CAPTURE),
                               where=ev.loc, construct=f"{fn.name}(B, …) in {ev.fn.name}", entry=entry, config=res.config)
     spec = CC.hooks()
     geo = {"baseline": (["vec", None], ["vec", None]), "ub": (["finite", "inf"], ["finite", "inf"]),
@@ -140,3 +144,8 @@ def check(rep, an, tier):
                               construct=norm_text(c.tag("node"))[:70], entry=entry, config=res.config)
     rep.require("R-QTY", 80)
     rep.advisory("solver tolerances are absolute and live outside the source: C15 is asserted for the well-scaled regime only")
+
+
+def _reg(an):
+    from .C14 import registration_writes
+    return registration_writes(an)
